@@ -2,9 +2,14 @@
    Only pinned statements (`Theorem .. exact lemma`) and `Print Assumptions`.
    Models: Codec/NodeCodec.v (encode_node / decode_node, node loop), Codec/Linearise.v (post-order traversal
    with sharing ids = encode_program's node list), Codec/WitnessCodec.v (witness stream), Codec/Decode.v.
-   Equality of commitment roots, types, identity and annotated roots after re-inference on the shared DAG
-   is not a theorem here (no model of type inference / Merkle roots in this family): it is tested on the
-   implementation for every generated program (tools/props/c01.py) - label C01_types_partial. *)
+   Phase 1 left equality of types, identity and annotated roots after re-inference on the shared DAG as
+   "tested only" (label C01_types_partial) and the general structure statement as a Definition.  Phase 2 (below,
+   theorems 5-14) proves the structure statement for all sizes through C18 (Coq/Dag), and - with C04's
+   principal-type theorems (Coq/Infer) and the root definitions of Coq/Merkle/Ihr.v - that a principally typed
+   program is a fixed point of encode/decode w.r.t. arrows, IHR and AMR whenever the decoded program is the
+   sharing quotient of the original; finding F-C01 is shown to be exactly the failure of that premise.
+   The correspondence check additionally evaluates Codec/RunRoots.v (reference inference + SHA-256 roots of
+   every node of the decoded program) against the implementation and libsimplicity. *)
 From RS Require Import Lib.Tac Lib.Outcome Lib.Bits Lib.Sweep Ty.Ty Bits.Natural Bits.BitIter
   Codec.NodeCodec Codec.ProgCodec Codec.JetTab Codec.Linearise Codec.Decode Codec.Structure Codec.Main
   Codec.WitnessCodec Codec.Run Codec.Rules Codec.RealJets.
@@ -95,11 +100,218 @@ Theorem C01_encoder_output_4 :
 Proof. exact encoder_output_4_two_ids. Qed.
 Print Assumptions C01_encoder_output_4.
 
-(* Not proved in general (kept as a statement; the two theorems above are its bounded form, the
-   correspondence check its test on generated programs). *)
+(* Phase 1: not proved in general (kept as a statement; the two theorems above are its bounded form).
+   Phase 2: PROVED below as C01_encode_decode_structure (theorem 7), with hidden nodes as theorem 14. *)
 Definition C01_encode_decode_structure_statement : Prop :=
   forall (ns : list dn) (keys : list (option N)),
   wf_nodes N (fun _ => true) 0 ns -> ns <> [] -> keys_acyclic ns keys = true ->
   let lin := linearise ns (key_list keys) in
   (forall d, In d lin -> forall h, d <> DHidden h) ->
   dec_struct lin = Ok tt /\ linearise lin key_ptr = lin.
+
+(* ------------------------------------------------------------------ phase 2: the general statement, all sizes *)
+From RS Require Import Dag.DagModel Dag.PostOrderSpec Dag.Acyclic Codec.DagBridge Codec.PostOrderCanon Codec.General Codec.GeneralInst.
+
+(* 5. the codec's recursive traversal (Codec/Linearise.v) is C18's specification of PostOrderIter on the
+   corresponding DAG, item by item: every C18 theorem applies to the node list encode_program writes *)
+Theorem C01_traverse_is_c18_spec : forall (ch : N -> list N) (key : N -> option N),
+  (forall n c, In c (ch n) -> c < n) -> (forall n, (length (ch n) <= 2)%nat) ->
+  forall root, Linearise.traverse ch key root = map conv (po_spec (dag_of ch) (key_of key) (N.to_nat root)).
+Proof. exact traverse_bridge. Qed.
+Print Assumptions C01_traverse_is_c18_spec.
+
+(* 6. canonical order, on C18's specification: under sharing ids that no node shares with a proper
+   descendant, the yielded items read as a DAG of their own are iterated (pointer identity, from the last
+   item) in the order 0, 1, 2, ... with the same child indices *)
+Theorem C01_po_items_canonical : forall (children : nat -> dagnode) (key : nat -> option N),
+  wfc children -> key_acyclic children key ->
+  forall all, wfc (lin_dag all) -> forall root, all = po_spec children key root ->
+  all <> [] /\ po_spec (lin_dag all) DagModel.key_ptr (length all - 1) = map id_item all.
+Proof. exact canon_order. Qed.
+Print Assumptions C01_po_items_canonical.
+
+(* 7. THE GENERAL STATEMENT (was a Definition only; bounded forms: theorems 4 above): for every well-formed
+   table and every acyclic sharing-id assignment the encoder's node list is accepted by the decoder's second
+   pass and re-encodes as itself *)
+Theorem C01_encode_decode_structure : C01_encode_decode_structure_statement.
+Proof. exact encode_decode_structure. Qed.
+Print Assumptions C01_encode_decode_structure.
+
+(* 8. ... and, hidden nodes or not, it is well formed (children first), non-empty and in canonical order *)
+Theorem C01_encoder_output_canonical : forall (ns : list dn) (keys : list (option N)),
+  wf_nodes N (fun _ => true) 0 ns -> ns <> [] -> keys_acyclic ns keys = true ->
+  let lin := linearise ns (Linearise.key_list keys) in
+  wf_nodes N (fun _ => true) 0 lin /\ lin <> [] /\ order_ok lin = true.
+Proof. exact encoder_output_canonical. Qed.
+Print Assumptions C01_encoder_output_canonical.
+
+(* the premises are satisfiable with real sharing (duplicates merged, witness nodes never shared) *)
+Theorem C01_general_example :
+  wf_nodesb N (fun _ => true) 0 ex_general_ns = true /\ keys_acyclic ex_general_ns ex_general_keys = true /\
+  linearise ex_general_ns (Linearise.key_list ex_general_keys) =
+    [DUnit; DPair 0 0; DInjL 1; DComp 2 2; DWitness; DWitness; DPair 4 5; DPair 3 6].
+Proof. exact ex_general_premises. Qed.
+Print Assumptions C01_general_example.
+
+(* ------------------------------------------------------------------ phase 2: types, identity and annotated roots *)
+From RS Require Import Core.Prog Infer.Constraints Infer.Infer Infer.Order Merkle.Tagged Merkle.Cmr Merkle.Ihr
+  Codec.Reinfer Codec.RootsRT Codec.Twins.
+
+(* 9. (was "tested only", C01_types_partial) a program whose arrows are the principal arrows of its structure -
+   inference in a context that holds only the program's own nodes, the property's quantifier - is a fixed
+   point of encode/decode w.r.t. types: if the decoded program p' is the quotient of p by the sharing map phi
+   (p'[phi i] = p[i] with children renamed by phi; phi onto) and merged nodes have equal arrows (the identity
+   hash commits to source and target), then inference on p' succeeds and gives node phi i the arrow of node i.
+   Uses C04's infer_sound / infer_complete / infer_least. *)
+Theorem C01_reinfer_quotient : forall (jt : jet_table) (phi : nat -> nat) (p p' : prog),
+  wf_from 0 p = true -> wf_from 0 p' = true -> quotient_of phi p p' ->
+  forall (root : option nat) (tau : list (option tarrow)),
+  (forall r, root = Some r -> (r < length p)%nat) ->
+  infer jt root p = Ok tau ->
+  (forall i j, (i < length p)%nat -> (j < length p)%nat -> phi i = phi j -> nth i tau None = nth j tau None) ->
+  exists tau', infer jt (option_map phi root) p' = Ok tau' /\
+    forall i, (i < length p)%nat -> nth (phi i) tau' None = nth i tau None.
+Proof. exact reinfer_quotient. Qed.
+Print Assumptions C01_reinfer_quotient.
+
+(* 10. ... and w.r.t. identity and annotated roots, for ANY compression function: RedeemData::new
+   (Merkle/Ihr.v redeem_table: AMR, IMR, IHR from constructor, payload, arrows, children's roots, witness value)
+   on the quotient gives node phi i what it gives node i on the original *)
+Theorem C01_roundtrip_fixed_point :
+  forall (H : Type) (compress : H -> H * H -> H) (iv ivi : tag -> H) (zero : H) (of_weight : N -> H) (bit_cmr : bool -> H)
+    (tmr_unit : H) (tmr_two_two_n : list H) (jet_cmr : N -> N -> H) (h_of_bytes : list N -> H)
+    (compact_value : list bool -> H)
+    (jt : jet_table) (phi : nat -> nat) (p p' : prog) (root : nat) (tau : list (option tarrow)),
+  wf_from 0 p = true -> wf_from 0 p' = true -> quotient_of phi p p' -> (root < length p)%nat ->
+  infer jt (Some root) p = Ok tau ->
+  (forall i j, (i < length p)%nat -> (j < length p)%nat -> phi i = phi j -> nth i tau None = nth j tau None) ->
+  exists tau', infer jt (Some (phi root)) p' = Ok tau' /\
+    (forall i, (i < length p)%nat -> nth (phi i) tau' None = nth i tau None) /\
+    forall t, redeem_table H compress iv ivi zero of_weight bit_cmr tmr_unit tmr_two_two_n jet_cmr h_of_bytes
+                compact_value (combine p tau) = Ok t ->
+      exists t', redeem_table H compress iv ivi zero of_weight bit_cmr tmr_unit tmr_two_two_n jet_cmr h_of_bytes
+                   compact_value (combine p' tau') = Ok t' /\
+        forall i, (i < length p)%nat -> nth_error t' (phi i) = nth_error t i.
+Proof. exact roundtrip_fixed_point. Qed.
+Print Assumptions C01_roundtrip_fixed_point.
+
+(* the premises are satisfiable: a quotient that merges two nodes, with the computed principal arrows *)
+Theorem C01_quotient_example :
+  quotient_of ex_q_phi ex_q_p ex_q_p' /\ wf_from 0 ex_q_p = true /\ wf_from 0 ex_q_p' = true /\
+  infer [] (Some 4%nat) ex_q_p =
+    Ok [Some (One, One); Some (One, One); Some (One, Prod One One); Some (Prod One One, One); Some (One, One)] /\
+  infer [] (Some (ex_q_phi 4)) ex_q_p' =
+    Ok [Some (One, One); Some (One, Prod One One); Some (Prod One One, One); Some (One, One)].
+Proof. exact (conj ex_quotient ex_quotient_premises). Qed.
+Print Assumptions C01_quotient_example.
+
+(* 11. finding F-C01 is exactly the failure of the premise "p' is a quotient of p": in the witness program of
+   the finding no type-respecting quotient map can merge the two identity-hash-equal nodes 3 and 9 (their left
+   children 1 and 7 have different arrows), and with a collision-free (free) hash their identity roots are
+   equal while their annotated roots differ *)
+Theorem C01_twins_no_quotient : forall phi p',
+  quotient_of phi twins p' -> phi 3%nat = phi 9%nat ->
+  ~ (forall i j, (i < length twins)%nat -> (j < length twins)%nat -> phi i = phi j ->
+       nth i twins_tau None = nth j twins_tau None).
+Proof. exact twins_no_quotient. Qed.
+Print Assumptions C01_twins_no_quotient.
+
+Theorem C01_twins_amr_differs :
+  infer [] (Some 11%nat) twins = Ok twins_tau /\
+  ihr_at 3 = ihr_at 9 /\ ihr_at 3 <> None /\ amr_at 3 <> amr_at 9 /\ ihr_at 1 <> ihr_at 7.
+Proof. exact (conj (proj1 twins_typed) twins_amr_differs). Qed.
+Print Assumptions C01_twins_amr_differs.
+
+(* ------------------------------------------------------------------ phase 2: end to end on the decoded program *)
+From RS Require Import Dag.VisitFacts Dag.Coverage Codec.ClassMap Codec.DecodedProg Codec.Quotient Codec.QuotientEx.
+
+(* 12. "the same node list up to the sharing quotient", explicitly: the program the decoder rebuilds from the
+   encoder's node list (decoded_prog: yielded items, children = yielded indices, payload of the first-yielded
+   node of each class - the function Codec/DecodedProg.v that the correspondence check evaluates through Codec/RunRoots.v) is the quotient of
+   the original by phi = index of the item of a node's class, provided the ids are present on every node,
+   congruent and payload-respecting; it is well formed *)
+Theorem C01_decoded_is_quotient : forall (p : prog) (keys : list (option N)),
+  wf_from 0 p = true -> p <> [] ->
+  let dch := dag_of (tch N (map (pdl_node true) p)) in
+  let dkey := key_of (Linearise.key_list keys) in
+  let rootn := N.to_nat (N.of_nat (length (map (pdl_node true) p)) - 1) in
+  (forall i, (i < length p)%nat -> reach dch rootn i) ->
+  (forall i, (i < length p)%nat -> dkey i <> None) ->
+  key_congruent dch dkey ->
+  (forall a b, (a < length p)%nat -> (b < length p)%nat -> dkey a = dkey b ->
+     skeleton (nth a p NUnit) = skeleton (nth b p NUnit)) ->
+  quotient_of (class_idx dch dkey rootn) p (decoded_prog p keys) /\ wf_from 0 (decoded_prog p keys) = true.
+Proof. exact decoded_is_quotient. Qed.
+Print Assumptions C01_decoded_is_quotient.
+
+(* 13. END TO END (structure + types + identity and annotated roots): a redemption-time program that consists
+   of the nodes reachable from its root and is typed with its principal arrows, under sharing ids that are
+   present on every node, acyclic, congruent, payload- and arrow-respecting: the decoded program, re-typed by
+   inference from scratch and re-hashed with any compression function, has at the image of every node the same
+   arrow, AMR, IMR and IHR.  The library's identity hash commits to the children's IMRs, not their IHRs: it is
+   congruent except for the twins of finding F-C01 (theorems 11). *)
+Theorem C01_decoded_fixed_point :
+  forall (H : Type) (compress : H -> H * H -> H) (iv ivi : tag -> H) (zero : H) (of_weight : N -> H) (bit_cmr : bool -> H)
+    (tmr_unit : H) (tmr_two_two_n : list H) (jet_cmr : N -> N -> H) (h_of_bytes : list N -> H)
+    (compact_value : list bool -> H)
+    (jt : jet_table) (p : prog) (keys : list (option N)) (tau : list (option tarrow)),
+  let dch := dag_of (tch N (map (pdl_node true) p)) in
+  let dkey := key_of (Linearise.key_list keys) in
+  let rootn := (length p - 1)%nat in
+  let phi := class_idx dch dkey rootn in
+  let p' := decoded_prog p keys in
+  wf_from 0 p = true -> p <> [] ->
+  (forall i, (i < length p)%nat -> reach dch rootn i) ->
+  (forall i, (i < length p)%nat -> dkey i <> None) ->
+  key_congruent dch dkey -> key_acyclic dch dkey ->
+  (forall a b, (a < length p)%nat -> (b < length p)%nat -> dkey a = dkey b ->
+     skeleton (nth a p NUnit) = skeleton (nth b p NUnit)) ->
+  infer jt (Some rootn) p = Ok tau ->
+  (forall a b, (a < length p)%nat -> (b < length p)%nat -> dkey a = dkey b -> nth a tau None = nth b tau None) ->
+  quotient_of phi p p' /\
+  exists tau', infer jt (Some (length p' - 1)%nat) p' = Ok tau' /\
+    (forall i, (i < length p)%nat -> nth (phi i) tau' None = nth i tau None) /\
+    forall t, redeem_table H compress iv ivi zero of_weight bit_cmr tmr_unit tmr_two_two_n jet_cmr h_of_bytes
+                compact_value (combine p tau) = Ok t ->
+      exists t', redeem_table H compress iv ivi zero of_weight bit_cmr tmr_unit tmr_two_two_n jet_cmr h_of_bytes
+                   compact_value (combine p' tau') = Ok t' /\
+        forall i, (i < length p)%nat -> nth_error t' (phi i) = nth_error t i.
+Proof. exact decoded_fixed_point. Qed.
+Print Assumptions C01_decoded_fixed_point.
+
+(* every premise of 13 is satisfiable at once (two `unit` nodes merged by their ids), and the conclusion applied *)
+Theorem C01_decoded_fixed_point_example :
+  (wf_from 0 ex_q_p = true /\ ex_q_p <> [] /\
+   (forall i, (i < length ex_q_p)%nat -> ex_dkey i <> None) /\
+   (forall a b, (a < length ex_q_p)%nat -> (b < length ex_q_p)%nat -> ex_dkey a = ex_dkey b ->
+      skeleton (nth a ex_q_p NUnit) = skeleton (nth b ex_q_p NUnit)) /\
+   infer [] (Some (length ex_q_p - 1)%nat) ex_q_p = Ok ex_tau /\
+   (forall a b, (a < length ex_q_p)%nat -> (b < length ex_q_p)%nat -> ex_dkey a = ex_dkey b ->
+      nth a ex_tau None = nth b ex_tau None) /\
+   decoded_prog ex_q_p ex_keys = ex_q_p') /\
+  key_congruent ex_dch ex_dkey /\ key_acyclic ex_dch ex_dkey /\
+  (forall i, (i < length ex_q_p)%nat -> reach ex_dch (length ex_q_p - 1)%nat i).
+Proof. exact (conj ex_fixed_point_premises (conj ex_cong (conj ex_acyclic ex_reach))). Qed.
+Print Assumptions C01_decoded_fixed_point_example.
+
+(* ------------------------------------------------------------------ phase 2: assertions (hidden nodes) *)
+From RS Require Import Codec.GeneralHidden Codec.GeneralHiddenInst.
+
+(* 14. theorem 7 with hidden nodes: for a table in which hidden nodes occur only as one child of a case node and
+   never as the root, under acyclic ids that never identify a hidden node with another kind of node and give
+   hidden nodes of equal CMR the same id (EncodeSharing), the encoder's node list passes the decoder's second
+   pass - hidden only under case, not both children, no repeated hidden node, root not hidden - and re-encodes
+   as itself.  hidden_okb is the finite test of these premises on the table. *)
+Theorem C01_encode_decode_structure_hidden : forall (ns : list dn) (keys : list (option N)),
+  wf_nodes N (fun _ => true) 0 ns -> ns <> [] -> keys_acyclic ns keys = true -> hidden_okb ns keys = true ->
+  let lin := linearise ns (Linearise.key_list keys) in
+  dec_struct lin = Ok tt /\ linearise lin Linearise.key_ptr = lin.
+Proof. exact encode_decode_structure_hidden. Qed.
+Print Assumptions C01_encode_decode_structure_hidden.
+
+Theorem C01_hidden_example :
+  wf_nodesb N (fun _ => true) 0 ex_hidden_ns = true /\ keys_acyclic ex_hidden_ns ex_hidden_keys = true /\
+  hidden_okb ex_hidden_ns ex_hidden_keys = true /\
+  linearise ex_hidden_ns (Linearise.key_list ex_hidden_keys) = [DUnit; DHidden H0; DCase 0 1; DPair 2 2; DComp 3 0].
+Proof. exact ex_hidden_premises. Qed.
+Print Assumptions C01_hidden_example.
